@@ -1397,6 +1397,15 @@ class Spec:
         if info is None:
             return
         key = (info[0], info[1])
+        if info[0] in ('xsyncMap', 'xsyncMapOf') and kind == 'plain-store':
+            # the cache object is shared by every goroutine that uses the cache (and by the janitor); its fields are
+            # written by the constructor only -- configuration that changes later lives in atomic.Value fields, the
+            # contents in the concurrent map.  A plain store to a field of an existing cache object is a data race with
+            # any concurrent method.
+            fresh_ = p.cid is not None and p.cid < 0
+            ex.oblige(st, 'C14/%s/access.%s.%s.write-once@L%s' % (ex.short_fn(), info[0], info[1], ex.line(ins)),
+                      z3.BoolVal(bool(fresh_)), tags=['C14'], kind='discipline')
+            return
         if key not in self.ATOMIC_ONLY and key not in self.BUCKET_WORDS and key not in self.COUNTER:
             return
         fresh = p.cid is not None and p.cid < 0
